@@ -87,11 +87,20 @@ impl Policy for ForcedPolicy {
             // the final validity call: the score of the current state
             return Some(info.current.as_ref().map(|c| c.score).unwrap_or(self.base));
         }
+        let decision = self.decisions[((k - 1) % self.decisions.len() as u64) as usize];
         let cur = match &info.current {
             Some(c) => c.score,
-            None => return None, // ambiguous trace: forced rejection, never guessed
+            None => {
+                // ambiguous trace: never guessed. An accepting decision is made an improvement in every
+                // candidate world (which also collapses the ambiguity), anything else a forced rejection.
+                return match decision {
+                    Decision::Better(d) if info.max_score.is_finite() => Some(info.max_score + d.max(1.0)),
+                    Decision::Equal if info.max_score.is_finite() => Some(info.max_score + 1.0),
+                    _ => None,
+                };
+            }
         };
-        match self.decisions[((k - 1) % self.decisions.len() as u64) as usize] {
+        match decision {
             Decision::Better(d) => Some(cur + d),
             Decision::Equal => Some(cur),
             Decision::Worse(d) => Some(cur - d),
@@ -194,6 +203,8 @@ pub struct RunOut {
     pub inconsistency: Option<(usize, String)>,
     pub initial: Option<Cand>,
     pub log_scores: Vec<Option<f64>>,
+    pub shadow_final: Vec<Cand>,
+    pub shadow_inconsistency: Option<(usize, String)>,
 }
 
 /// run the real optimiser on a Script governed by `policy`
@@ -201,6 +212,11 @@ pub fn run_script(cfg: &OptCfg, init: &[f64], bounds: &[(f64, f64)], kt_zero: bo
     let mut model = Model::new(kt_zero, use_expectations);
     model.keep_steps = true;
     let brain: SharedBrain = new_brain(model, policy);
+    {
+        let mut sh = Model::new(kt_zero, false);
+        sh.keep_steps = false;
+        brain.lock().unwrap().shadow = Some(sh);
+    }
     let script = Script::new(init, bounds, brain.clone());
     let cfg2 = cfg.clone();
     let result = catch_unwind(AssertUnwindSafe(move || {
@@ -224,15 +240,23 @@ pub fn run_script(cfg: &OptCfg, init: &[f64], bounds: &[(f64, f64)], kt_zero: bo
     };
     let calls_during_run = brain.lock().unwrap_or_else(|e| e.into_inner()).model.calls;
     // candidate final states as implied by the trace (before any further call)
-    let (final_cands, steps, inconsistency, initial, log_scores) = {
+    let (final_cands, steps, inconsistency, initial, log_scores, shadow_final, shadow_inconsistency) = {
         let mut b = brain.lock().unwrap_or_else(|e| e.into_inner());
         let fc = b.model.final_candidates();
         b.model.finished = true;
-        (fc, b.model.steps.clone(), b.model.inconsistency.clone(), b.model.initial.clone(), b.log_scores.clone())
+        let (sf, si) = match b.shadow.as_mut() {
+            Some(sh) => {
+                let f = sh.final_candidates();
+                sh.finished = true;
+                (f, sh.inconsistency.clone())
+            }
+            None => (vec![], None),
+        };
+        (fc, b.model.steps.clone(), b.model.inconsistency.clone(), b.model.initial.clone(), b.log_scores.clone(), sf, si)
     };
     // score of the returned state, asked after the bookkeeping above
     let returned_score = keep.as_ref().map(|s| s.score());
-    RunOut { panicked, returned_params, returned_score, calls_during_run, steps, final_cands, inconsistency, initial, log_scores }
+    RunOut { panicked, returned_params, returned_score, calls_during_run, steps, final_cands, inconsistency, initial, log_scores, shadow_final, shadow_inconsistency }
 }
 
 pub fn same_bits(a: &[f64], b: &[f64]) -> bool {
